@@ -51,7 +51,7 @@ Definition parse_float (body : string) : option num :=
   | _ => None
   end.
 
-Fixpoint p_yaml (f : nat) (ts : list string) {struct f} : option (yaml * list string) :=
+Fixpoint p_yaml_raw (f : nat) (ts : list string) {struct f} : option (yaml * list string) :=
   match f with
   | 0 => None
   | S f' =>
@@ -72,7 +72,7 @@ Fixpoint p_yaml (f : nat) (ts : list string) {struct f} : option (yaml * list st
                 (fix go (n : nat) (ts : list string) (acc : list yaml) : option (yaml * list string) :=
                    match n with
                    | 0 => Some (YSeq (rev acc), ts)
-                   | S n' => match p_yaml f' ts with
+                   | S n' => match p_yaml_raw f' ts with
                              | Some (y, ts1) => go n' ts1 (y :: acc)
                              | None => None
                              end
@@ -85,9 +85,9 @@ Fixpoint p_yaml (f : nat) (ts : list string) {struct f} : option (yaml * list st
                 (fix go (n : nat) (ts : list string) (acc : list (yaml * yaml)) : option (yaml * list string) :=
                    match n with
                    | 0 => Some (YMap (rev acc), ts)
-                   | S n' => match p_yaml f' ts with
+                   | S n' => match p_yaml_raw f' ts with
                              | Some (k, ts1) =>
-                                 match p_yaml f' ts1 with
+                                 match p_yaml_raw f' ts1 with
                                  | Some (v, ts2) => go n' ts2 ((k, v) :: acc)
                                  | None => None
                                  end
@@ -96,13 +96,64 @@ Fixpoint p_yaml (f : nat) (ts : list string) {struct f} : option (yaml * list st
                    end) n ts' []
             end
           else if Ascii.eqb c "G" then
-            match unhex body, p_yaml f' ts' with
+            match unhex body, p_yaml_raw f' ts' with
             | Some tg, Some (y, ts1) => Some (YTagged tg y, ts1)
             | _, _ => None
             end
           else None
       end
   end.
+
+
+(** Rust compares mappings without regard to the order of their entries (IndexMap equality), so two
+    mapping-valued *keys* that differ only in the order of their entries are one key.  The model's key
+    equality is structural; the order inside mapping-valued keys is therefore normalised where the
+    input is read (and where observations are printed, [canon_key]). *)
+Fixpoint insert_by {A} (leb : A -> A -> bool) (x : A) (l : list A) : list A :=
+  match l with [] => [x] | y :: l' => if leb x y then x :: l else y :: insert_by leb x l' end.
+Definition sort_by {A} (leb : A -> A -> bool) (l : list A) : list A := fold_right (insert_by leb) [] l.
+
+Fixpoint yaml_text (y : yaml) : string :=
+  match y with
+  | YNull => "N"
+  | YBool true => "T"
+  | YBool false => "F"
+  | YNum (NInt z) => ("I" ++ Z_to_string z)%string
+  | YNum (NFloat f) => ("D" ++ hex (f_yaml f))%string
+  | YStr s => ("S" ++ hex s)%string
+  | YSeq l =>
+      (("L" ++ nat_to_string (List.length l)) ++
+       (fix go (l : list yaml) : string := match l with [] => "" | x :: xs => (" " ++ yaml_text x ++ go xs)%string end) l)%string
+  | YMap l =>
+      (("M" ++ nat_to_string (List.length l)) ++
+       (fix go (l : list (yaml * yaml)) : string :=
+          match l with [] => "" | (k, v) :: xs => (" " ++ yaml_text k ++ " " ++ yaml_text v ++ go xs)%string end) l)%string
+  | YTagged t y' => ("G" ++ hex t ++ " " ++ yaml_text y')%string
+  end.
+
+Fixpoint norm_in_key (y : yaml) : yaml :=
+  match y with
+  | YSeq l => YSeq ((fix go (l : list yaml) : list yaml := match l with [] => [] | x :: r => norm_in_key x :: go r end) l)
+  | YMap l =>
+      YMap (sort_by (fun a b => String.leb (yaml_text (fst a)) (yaml_text (fst b)))
+              ((fix go (l : list (yaml * yaml)) : list (yaml * yaml) :=
+                  match l with [] => [] | (k, v) :: r => (norm_in_key k, norm_in_key v) :: go r end) l))
+  | YTagged t y' => YTagged t (norm_in_key y')
+  | _ => y
+  end.
+
+Fixpoint norm_yaml (y : yaml) : yaml :=
+  match y with
+  | YSeq l => YSeq ((fix go (l : list yaml) : list yaml := match l with [] => [] | x :: r => norm_yaml x :: go r end) l)
+  | YMap l =>
+      YMap ((fix go (l : list (yaml * yaml)) : list (yaml * yaml) :=
+               match l with [] => [] | (k, v) :: r => (norm_in_key k, norm_yaml v) :: go r end) l)
+  | YTagged t y' => YTagged t (norm_yaml y')
+  | _ => y
+  end.
+
+Definition p_yaml (f : nat) (ts : list string) : option (yaml * list string) :=
+  match p_yaml_raw f ts with Some (y, r) => Some (norm_yaml y, r) | None => None end.
 
 (** [n] yaml values in sequence *)
 Fixpoint p_yamls (n : nat) (ts : list string) : option (list yaml * list string) :=
@@ -135,6 +186,36 @@ Fixpoint p_strs (n : nat) (ts : list string) : option (list string * list string
 (** * Observation printing *)
 Definition sp (a b : string) : string := (a ++ " " ++ b)%string.
 
+(** a value in key position: entries of mappings in sorted order of their printed form *)
+Fixpoint canon_key (flags : bool) (v : value) {struct v} : string :=
+  match v with
+  | VNull => "N"
+  | VBool true => "T"
+  | VBool false => "F"
+  | VNum (NInt z) => ("I" ++ Z_to_string z)%string
+  | VNum (NFloat f) => ("D" ++ hex (f_yaml f))%string
+  | VStr s => ("S" ++ hex s)%string
+  | VLit s => ("Q" ++ hex s)%string
+  | VSeq l =>
+      (("L" ++ nat_to_string (List.length l)) ++
+       (fix go (l : list value) : string :=
+          match l with [] => "" | x :: xs => (" " ++ canon_key flags x ++ go xs)%string end) l)%string
+  | VList l =>
+      (("V" ++ nat_to_string (List.length l)) ++
+       (fix go (l : list value) : string :=
+          match l with [] => "" | x :: xs => (" " ++ canon_key flags x ++ go xs)%string end) l)%string
+  | VMap es =>
+      (("M" ++ nat_to_string (List.length es)) ++
+       concat_str (sort_by String.leb
+         ((fix go (es : list entry) : list string :=
+             match es with
+             | [] => []
+             | (k, x, c, o) :: es' =>
+                 (" " ++ canon_key flags k ++ " " ++ canon_key flags x ++
+                  (if flags then (if c then " c" else " -") ++ (if o then "o" else "-") else ""))%string :: go es'
+             end) es)))%string
+  end.
+
 Fixpoint canon (flags : bool) (v : value) {struct v} : string :=
   match v with
   | VNull => "N"
@@ -158,7 +239,7 @@ Fixpoint canon (flags : bool) (v : value) {struct v} : string :=
           match es with
           | [] => ""
           | (k, x, c, o) :: es' =>
-              (" " ++ canon flags k ++ " " ++ canon flags x ++
+              (" " ++ canon_key flags k ++ " " ++ canon flags x ++
                (if flags then (if c then " c" else " -") ++ (if o then "o" else "-") else "") ++
                go es')%string
           end) es)%string
@@ -180,7 +261,7 @@ Fixpoint hxs (l : list string) : string :=
 
 Fixpoint canon_err (e : err) : string :=
   match e with
-  | EConst k => sp "EConst" (canon false k)
+  | EConst k => sp "EConst" (canon_key false k)
   | EMerge p s t => ("EMerge " ++ hx p ++ " " ++ hx s ++ " " ++ hx t)%string
   | EFlattenString p => sp "EFlattenString" (hx p)
   | EParse t => sp "EParse" (hx t)
